@@ -8,10 +8,13 @@ import (
 	"crypto/sha256"
 	"encoding/hex"
 	"encoding/json"
+	"encoding/pem"
 	"fmt"
 	"math/big"
+	"reflect"
 	"strings"
 
+	ctx509 "github.com/zmap/zcrypto/ct/x509"
 	zasn1 "github.com/zmap/zcrypto/encoding/asn1"
 	zx509 "github.com/zmap/zcrypto/x509"
 
@@ -28,7 +31,9 @@ func init() {
 			"of the extension list, all FingerprintNoCT equal and different from the serial+1 control; non-trivial = accepted certificate on which every applicable field was compared, or a CT family " +
 			"with >= 3 accepted members; name leg: certificates whose issuer and subject are equal as printed but different as bytes (string type, RDN grouping, order inside a SET, case, " +
 			"whitespace), with different-name and equal-bytes controls, each signed by its own key and by another key; PSS leg: self-issued RSA-PSS certificates (SHA-256/384/512) signed " +
-			"correctly, with salt lengths 0 / 20 / hash-1 / hash+1 / maximum, with PKCS#1 v1.5 under a PSS identifier and vice versa, and with an MGF1 hash different from the message hash; distinct by hash of the DER bytes / of the family base",
+			"correctly, with salt lengths 0 / 20 / hash-1 / hash+1 / maximum, with PKCS#1 v1.5 under a PSS identifier and vice versa, and with an MGF1 hash different from the message hash; " +
+			"multi-parse leg: bundles of 2-5 accepted certificates in random order through x509.ParseCertificates, ct/x509.ParseCertificates and CertPool.AppendCertsFromPEM, the i-th result " +
+			"deep-equal (every exported field, JSON bytes) to ParseCertificate of the i-th DER alone, plus parse A, parse B, parse A again; distinct by hash of the DER bytes / of the family base",
 		MinNontrivial:         8000,
 		MinNontrivialThorough: 250000,
 		Shards:                16,
@@ -45,6 +50,13 @@ type c06Input struct {
 	Hex  string   `json:"hex,omitempty"`
 	Desc string   `json:"desc,omitempty"`
 	Fam  []string `json:"family,omitempty"`
+	// Bundle: the DER certificates of a multi-parse case, in bundle order
+	Bundle []string `json:"bundle,omitempty"`
+}
+
+type rawMode struct {
+	raw  []byte
+	mode bool
 }
 
 // looseNameEqual: same attribute types and values after case folding and space collapsing, string types ignored.
@@ -343,11 +355,22 @@ func runC06(c *core.Ctx) {
 			}
 			return
 		}
+		if json.Unmarshal(c.Replay, &in) == nil && len(in.Bundle) > 0 {
+			var group []rawMode
+			for _, h := range in.Bundle {
+				raw, _ := hex.DecodeString(h)
+				group = append(group, rawMode{raw, in.Mode == "permissive"})
+			}
+			c06Multi(c, group, c.OnlyCase)
+			c.Eval(1)
+			return
+		}
 		// CT families are regenerated from the seed (full shard re-run)
 	}
 	ig := newInputGen(c.Rng)
 	n := c.PerShard(c.Pick(30000, 1200000))
 	seeds := ig.fams["cert"]
+	var accepted []rawMode
 	for i := 0; i < n; i++ {
 		var raw []byte
 		desc := ""
@@ -368,6 +391,7 @@ func runC06(c *core.Ctx) {
 		c.Eval(1)
 		c.Count("accepted_"+modeName(mode), 1)
 		id := fmt.Sprintf("s%d-%d", c.Shard, i)
+		accepted = append(accepted, rawMode{raw, mode})
 		if c06Check(c, cert, raw, mode, desc, id) {
 			c.Nontrivial(raw)
 		}
@@ -391,6 +415,7 @@ func runC06(c *core.Ctx) {
 		}
 		c.Eval(1)
 		c.Count("name_leg:"+desc[:strings.IndexByte(desc, ' ')], 1)
+		accepted = append(accepted, rawMode{raw, mode})
 		if c06Check(c, cert, raw, mode, desc, fmt.Sprintf("names-s%d-%d", c.Shard, i)) {
 			c.Nontrivial(raw)
 		}
@@ -408,11 +433,32 @@ func runC06(c *core.Ctx) {
 		}
 		c.Eval(1)
 		c.Count("pss_leg:"+desc[:strings.IndexByte(desc, ' ')], 1)
+		accepted = append(accepted, rawMode{raw, mode})
 		if cert.SelfSigned {
 			c.Count("pss_leg_self_signed_flag_set", 1)
 		}
 		if c06Check(c, cert, raw, mode, desc, fmt.Sprintf("pss-s%d-%d", c.Shard, i)) {
 			c.Nontrivial(raw)
+		}
+	}
+	// multi-parse leg: each certificate of a bundle must come out as if it had been parsed alone
+	rm := c.SubRng("multi")
+	if len(accepted) >= 5 {
+		for i, ng := 0, c.PerShard(c.Pick(8000, 250000)); i < ng; i++ {
+			k := 2 + rm.IntN(4)
+			group := make([]rawMode, 0, k)
+			seen := map[string]bool{}
+			for len(group) < k {
+				x := accepted[rm.IntN(len(accepted))]
+				if !seen[string(x.raw)] {
+					seen[string(x.raw)] = true
+					group = append(group, x)
+				}
+			}
+			c.Eval(1)
+			if c06Multi(c, group, fmt.Sprintf("multi-s%d-%d", c.Shard, i)) {
+				c.Nontrivial("multi", c.Shard, i, c.Seed)
+			}
 		}
 	}
 	// CT leg
@@ -594,4 +640,110 @@ func (g *gen) pssSelfIssuedCert() ([]byte, string) {
 		p.Exts = []*der.Node{extension([]int{2, 5, 29, 19}, true, der.Seq(der.Bool(true)))}
 	}
 	return p.assemble(), kind + " hash:" + itoa(h.Size()*8) + " key:" + sg.name
+}
+
+// c06Multi checks that the certificates of a bundle do not influence each other: the i-th result of every
+// multi-certificate entry point equals, field by field and in its JSON bytes, the result of parsing the i-th DER
+// alone; and parsing A, then B, then A again gives the first result. Returns true when all comparisons ran.
+func c06Multi(c *core.Ctx, group []rawMode, id string) bool {
+	mode := false
+	var bundle []string
+	var concat, pemText []byte
+	for _, x := range group {
+		mode = mode || x.mode
+		bundle = append(bundle, hex.EncodeToString(x.raw))
+		concat = append(concat, x.raw...)
+		pemText = append(pemText, pem.EncodeToMemory(&pem.Block{Type: "CERTIFICATE", Bytes: x.raw})...)
+	}
+	zasn1.AllowPermissiveParsing = mode
+	defer func() { zasn1.AllowPermissiveParsing = false }()
+	in := c06Input{Mode: modeName(mode), Bundle: bundle, Desc: fmt.Sprintf("bundle of %d certificates", len(group))}
+	// references: each certificate alone
+	alone := make([]*zx509.Certificate, len(group))
+	aloneJSON := make([][]byte, len(group))
+	ctAlone := make([]*ctx509.Certificate, len(group))
+	for i, x := range group {
+		var err error
+		if core.Guard(func() { alone[i], err = zx509.ParseCertificate(x.raw) }) != nil || err != nil {
+			c.Count("multi_member_not_accepted_alone_in_group_mode", 1)
+			return false
+		}
+		core.Guard(func() { aloneJSON[i], _ = json.Marshal(alone[i]) })
+		core.Guard(func() {
+			if cc, e := ctx509.ParseCertificate(x.raw); e == nil {
+				ctAlone[i] = cc
+			}
+		})
+	}
+	compare := func(entry string, got []*zx509.Certificate) {
+		if len(got) != len(group) {
+			c.Violation("multi-parse:"+entry+":count", fmt.Sprintf("%s returned %d certificates for a bundle of %d", entry, len(got), len(group)), id, in)
+			return
+		}
+		for i := range got {
+			if d := deepDiff(reflect.ValueOf(got[i]), reflect.ValueOf(alone[i]), "Certificate", 0); d != "" {
+				c.Violation("multi-parse:"+entry+":"+diffKey(d), fmt.Sprintf("certificate #%d of the bundle differs from the same DER parsed alone at %s", i, d), id, in)
+				return
+			}
+			var j []byte
+			core.Guard(func() { j, _ = json.Marshal(got[i]) })
+			if !bytes.Equal(j, aloneJSON[i]) {
+				dd := firstDiff(aloneJSON[i], j)
+				c.Violation("multi-parse:"+entry+":json", fmt.Sprintf("JSON of certificate #%d of the bundle differs from the same DER parsed alone at byte %d:\n…%s\n…%s", i, dd, ctxAt(aloneJSON[i], dd), ctxAt(j, dd)), id, in)
+				return
+			}
+		}
+	}
+	// x509.ParseCertificates
+	var multi []*zx509.Certificate
+	var err error
+	if core.Guard(func() { multi, err = zx509.ParseCertificates(concat) }) != nil {
+		return false // C01's subject
+	}
+	if err != nil {
+		c.Violation("multi-parse:x509.ParseCertificates:rejects", "every certificate is accepted alone but the concatenation is rejected: "+errStr(err), id, in)
+	} else {
+		compare("x509.ParseCertificates", multi)
+	}
+	c.Count("multi_parse:x509.ParseCertificates", 1)
+	// PEM bundle through a CertPool
+	var fromPool []*zx509.Certificate
+	if core.Guard(func() {
+		p := zx509.NewCertPool()
+		p.AppendCertsFromPEM(pemText)
+		fromPool = p.Certificates()
+	}) == nil {
+		compare("x509.CertPool.AppendCertsFromPEM", fromPool)
+		c.Count("multi_parse:CertPool.AppendCertsFromPEM", 1)
+	}
+	// ct/x509.ParseCertificates against ct/x509.ParseCertificate
+	allCT := true
+	for _, x := range ctAlone {
+		allCT = allCT && x != nil
+	}
+	if allCT {
+		var ctMulti []*ctx509.Certificate
+		var e error
+		if core.Guard(func() { ctMulti, e = ctx509.ParseCertificates(concat) }) == nil && e == nil {
+			if len(ctMulti) != len(group) {
+				c.Violation("multi-parse:ct/x509.ParseCertificates:count", fmt.Sprintf("returned %d certificates for a bundle of %d", len(ctMulti), len(group)), id, in)
+			} else {
+				for i := range ctMulti {
+					if d := deepDiff(reflect.ValueOf(ctMulti[i]), reflect.ValueOf(ctAlone[i]), "Certificate", 0); d != "" {
+						c.Violation("multi-parse:ct/x509.ParseCertificates:"+diffKey(d), fmt.Sprintf("certificate #%d of the bundle differs from the same DER parsed alone at %s", i, d), id, in)
+						break
+					}
+				}
+			}
+			c.Count("multi_parse:ct/x509.ParseCertificates", 1)
+		}
+	}
+	// parse A, parse B, parse A again
+	var again *zx509.Certificate
+	if core.Guard(func() { again, err = zx509.ParseCertificate(group[0].raw) }) == nil && err == nil {
+		if d := deepDiff(reflect.ValueOf(again), reflect.ValueOf(alone[0]), "Certificate", 0); d != "" {
+			c.Violation("reparse:x509.ParseCertificate:"+diffKey(d), "parsing A, then other certificates, then A again gives a different result at "+d, id, in)
+		}
+	}
+	return true
 }
